@@ -163,12 +163,11 @@ def family(tier):
                   [(0, "press"), (1, "toggle")], 4, 3))
         F.append(("lwh2", [VK_LWH(1), VK_LWH(2)], {"a": cust([op(1, "toggle")]), "b": cust([hfd(2, 3)]), "p": probe()},
                   [(0, "release"), (1, "tap")], 4, 3))
-        F.append(("ops1_racy", [x], {"a": cust([op(1, "toggle")]), "b": pr}, [(0, "press"), (0, "toggle")], 3, 3))
         F.append(("ops1_q4", [x], {"a": cust([op(1, "toggle")]), "b": pr}, [(0, "toggle"), (0, "tap")], 4, 4))
     return F
 
 
-def mc_instance(name, kbd, params, keys, direct, max_states, qmax, prune_racy=True):
+def mc_instance(name, kbd, params, keys, direct, max_states, qmax):
     fkset = "{" + ", ".join('<<%d, "%s">>' % (i, o) for i, o in direct) + "}"
     return {"name": "c18_" + name, "kbd": kbd, "keys": keys, "qmax": qmax,
             "monitor": {"module": "P_C18", "params": params}, "invariants": [],
@@ -183,10 +182,7 @@ def mc_instance(name, kbd, params, keys, direct, max_states, qmax, prune_racy=Tr
             "extra_next": "\\/ (\\E f \\in FkSet : Fk(f[1], f[2]))",
             # pressing a pressed virtual key stacks another state on the same coordinate (up to 64); the
             # exhaustive instances stop at max_states entries (longer pile-ups are driven on the real code)
-            # ... and (prune_racy) do not go on behind a toggle issued while the key's state is in flight: that is the
-            # recorded finding, its witnesses are scripted below and found by TLC itself in the unpruned instance
-            "constraint": "VkBound",
-            "extra_defs": "VkBound == Len(K.L.states) <= %d%s" % (max_states, " /\\ mon.rt = {}" if prune_racy else "")}
+            "constraint": "VkBound", "extra_defs": "VkBound == Len(K.L.states) <= %d" % max_states}
 
 
 # ---- random histories beyond the bounds --------------------------------------------------------------
@@ -198,10 +194,10 @@ def key_cost(k):
     return cost, any(it["op"] == "toggle" for it in items)
 
 
-def rand_script(rng, kdesc, direct, n_events, gaps, tail, clean):
+def rand_script(rng, kdesc, direct, n_events, gaps, tail, clean=False):
     """Physically consistent key events interleaved with direct operations, at most ~16 events pending.
-    clean: a step that may issue a toggle waits until earlier work has drained (no toggle is issued while the
-    key's state is in flight - the recorded finding); otherwise anything goes."""
+    clean: a step that may issue a toggle waits until earlier work has drained; otherwise toggles are also issued
+    while the key's state is in flight (they must alternate all the same, fix cc71619)."""
     names = list(kdesc)
     down, s, pending = set(), [], 0
     for _ in range(n_events):
@@ -232,7 +228,7 @@ def rand_script(rng, kdesc, direct, n_events, gaps, tail, clean):
 
 
 def finding_scripts(kdesc, direct):
-    """Scripted witnesses of the recorded finding (toggle while the key's state is in flight)."""
+    """Regression scripts for the repaired defect cc71619: a toggle issued while an event of the key is still queued."""
     out = []
     if (0, "toggle") in direct:
         out.append([["fk", 0, "toggle"], ["fk", 0, "toggle"], ["t", 8]])
@@ -302,7 +298,7 @@ def run(tier, seed):
     for name, vks, kdesc, direct, max_states, qmax in family(tier):
         kbd, params = make(vks, kdesc)
         keys = [cfgdesc.code(k) for k in kdesc]
-        inst = mc_instance(name, kbd, params, keys, direct, max_states, qmax, prune_racy=not name.endswith("_racy"))
+        inst = mc_instance(name, kbd, params, keys, direct, max_states, qmax)
         r = mc.check_instance(inst, wd, workers=8, timeout=1500)
         res.add_instance(r)
         if len(res.samples) < 4:
@@ -319,7 +315,7 @@ def run(tier, seed):
         alld = [(i, o) for i in range(len(vks)) for o in OPS]
         D = max([params["maxd"]] + [it["d"] for k in kdesc.values() for it in k.get("onp", [])] + [2])
         scripts = [rand_script(rng, kdesc, alld if j % 2 else direct, rng.randint(4, 30 if tier == "quick" else 120),
-                               [0, 0, 1, 1, 2, D - 1, D, D + 1, 2 * D + 2], 30, clean=j % 4 != 3) for j in range(n)]
+                               [0, 0, 1, 1, 2, D - 1, D, D + 1, 2 * D + 2], 30, clean=j % 4 == 0) for j in range(n)]
         jobs_random.append({"cfg": kbd, "params": params, "tag": "r:" + name, "scripts": scripts})
     vks, kdesc, seqs, st = seq_instance()
     kbd, params = make(vks, kdesc, seqs, st)
@@ -329,7 +325,7 @@ def run(tier, seed):
     vks, kdesc, direct = equiv_instance()
     kbd, params = make(vks, kdesc)
     jobs_random.append({"cfg": kbd, "params": params, "tag": "e:equiv",
-                        "scripts": [rand_script(rng, kdesc, direct, rng.randint(6, 40), [0, 1, 1, 2, 3, 6], 30, clean=j % 4 != 3)
+                        "scripts": [rand_script(rng, kdesc, direct, rng.randint(6, 40), [0, 1, 1, 2, 3, 6], 30, clean=j % 4 == 0)
                                     for j in range(40 if tier == "quick" else 300)]})
     for label, jobs in (("witness", witness_jobs), ("random", jobs_random)):
         if not jobs:
